@@ -77,7 +77,9 @@ Definition add_rej (r : res) (o : opt) := mkres (r_ack r) (r_nak r) (r_rej r ++ 
 Record ipcp_cfg := mkicfg {
   ic_assigned : option bytes;     (* i.peer.PeerAddress: what SetPeerAddress stored *)
   ic_dns1 : option bytes;         (* i.local.PrimaryDNS *)
-  ic_dns2 : option bytes          (* i.local.SecondaryDNS *)
+  ic_dns2 : option bytes;         (* i.local.SecondaryDNS *)
+  ic_local : option bytes;        (* i.local.Address (only BuildConfReq reads it) *)
+  ic_rejected : list N            (* i.rejected: option types the subscriber has rejected *)
 }.
 Record ipcp_peer := mkipeer {
   pp_addr : option bytes;         (* i.peer.Address *)
@@ -89,8 +91,8 @@ Definition ipeer0 : ipcp_peer := mkipeer None None None.
 (* SetPeerAddress / SetDNS store addr.To4(); DefaultIPCPConfig leaves the DNS fields at net.IPv4zero *)
 Definition mk_ipcp_cfg (assigned : option bytes) (dns : option (option bytes * option bytes)) : ipcp_cfg :=
   match dns with
-  | Some (d1, d2) => mkicfg (to4o assigned) (to4o d1) (to4o d2)
-  | None => mkicfg (to4o assigned) (Some ipv4zero) (Some ipv4zero)
+  | Some (d1, d2) => mkicfg (to4o assigned) (to4o d1) (to4o d2) (Some ipv4zero) []
+  | None => mkicfg (to4o assigned) (Some ipv4zero) (Some ipv4zero) (Some ipv4zero) []
   end.
 
 Definition dns_usable (x : option bytes) : bool :=          (* x != nil && !x.Equal(net.IPv4zero) *)
@@ -281,6 +283,28 @@ Definition ipv6cp_input (local : bytes) (st : N) (p : bytes) (oracle : list byte
   | _ => ([], st, p)
   end.
 
+(* ProcessConfAck / ProcessConfNak (identical bodies): the subscriber's answer to OUR Configure-Request
+   overwrites our local DNS values (and our local address, which nothing observable here depends on);
+   the assigned peer address is not touched *)
+Definition ipcp_learn_opt (c : ipcp_cfg) (o : opt) : ipcp_cfg :=
+  if Nat.eqb (length (o_data o)) 4 then
+    if N.eqb (o_type o) 3 then mkicfg (ic_assigned c) (ic_dns1 c) (ic_dns2 c) (Some (o_data o)) (ic_rejected c)
+    else if N.eqb (o_type o) 129 then mkicfg (ic_assigned c) (Some (o_data o)) (ic_dns2 c) (ic_local c) (ic_rejected c)
+    else if N.eqb (o_type o) 131 then mkicfg (ic_assigned c) (ic_dns1 c) (Some (o_data o)) (ic_local c) (ic_rejected c)
+    else c
+  else c.
+Definition ipcp_learn (c : ipcp_cfg) (os : list opt) : ipcp_cfg := fold_left ipcp_learn_opt os c.
+
+(* ProcessConfRej: remember the rejected option types *)
+Definition ipcp_rejected (c : ipcp_cfg) (os : list opt) : ipcp_cfg :=
+  mkicfg (ic_assigned c) (ic_dns1 c) (ic_dns2 c) (ic_local c) (map o_type os ++ ic_rejected c).
+
+(* BuildConfReq *)
+Definition build_confreq (c : ipcp_cfg) : list opt :=
+  let want (t : N) (x : option bytes) :=
+    if negb (existsb (N.eqb t) (ic_rejected c)) && usable x then [ip_option t x] else [] in
+  want 3%N (ic_local c) ++ want 129%N (ic_dns1 c) ++ want 131%N (ic_dns2 c).
+
 (* ---- the PPPoE session around IPCP (internal/pppoe/session.go) ---- *)
 Definition fallback_addr : bytes := (v4prefix ++ [100; 64; 0; 1])%N.   (* net.ParseIP("100.64.0.1") *)
 
@@ -296,7 +320,8 @@ Record sess := mksess {
   s_fsm : N;
   s_peer : ipcp_peer;
   s_addr : option bytes;      (* SessionState.IPv4Address *)
-  s_open : bool               (* SessionState.ipcpOpen *)
+  s_open : bool;              (* SessionState.ipcpOpen *)
+  s_lastreq : list opt        (* options of our last Configure-Request *)
 }.
 
 (* startNCP without registry and allocation context: fallback address, SetPeerAddress, default DNS
@@ -305,7 +330,8 @@ Definition dns_default1 : bytes := (v4prefix ++ [8;8;8;8])%N.
 Definition dns_default2 : bytes := (v4prefix ++ [8;8;4;4])%N.
 Definition sess_start (fl : flags) (aaa : option bytes) : sess :=
   let a := match extract_ip fl aaa with Some x => x | None => fallback_addr end in
-  mksess (mk_ipcp_cfg (Some a) (Some (Some dns_default1, Some dns_default2))) 6 ipeer0 (Some a) false.
+  let c := mk_ipcp_cfg (Some a) (Some (Some dns_default1, Some dns_default2)) in
+  mksess c 6 ipeer0 (Some a) false (build_confreq c).
 
 (* callbacks LayerUp = onIPCPUp, LayerDown = onIPCPDown *)
 Definition on_act (fl : flags) (p : ipcp_peer) (st : option bytes * bool) (a : act) : option bytes * bool :=
@@ -316,20 +342,45 @@ Definition on_act (fl : flags) (p : ipcp_peer) (st : option bytes * bool) (a : a
   | _ => st
   end.
 
+(* rcaEvent / rcnEvent: "opts, _ := ParseOptions(data)" — a parse error yields no options but the
+   automaton still moves *)
+Definition parse_lenient (w : bytes) : list opt := match parse_wire w with Ok os => os | _ => [] end.
+
+(* rcnEvent with id = lastReqID *)
+Definition rcn_event (st : N) (id : N) : list act * N :=
+  match st with
+  | 2 | 3 => ([Sta id], st)
+  | 6 | 7 | 8 => ([Scr], 6)
+  | 9 => ([Tld; Scr], 6)
+  | _ => ([], st)
+  end%N.
+
 Inductive sev :=
 | EvReq (id : N) (wire : bytes)     (* the subscriber's Configure-Request *)
-| EvAck.                            (* the subscriber acknowledges our last Configure-Request *)
+| EvAck                             (* the subscriber acknowledges our last Configure-Request verbatim *)
+| EvAckW (wire : bytes)             (* Configure-Ack with our last identifier and arbitrary contents *)
+| EvNak (wire : bytes)              (* Configure-Nak with our last identifier *)
+| EvRej (wire : bytes).             (* Configure-Reject with our last identifier *)
+
+(* every scr rebuilds our request from the configuration as it is at that moment *)
+Definition next_req (c : ipcp_cfg) (acts : list act) (last : list opt) : list opt :=
+  if existsb (fun a => match a with Scr => true | _ => false end) acts then build_confreq c else last.
+
+Definition sess_fsm_only (fl : flags) (s : sess) (c' : ipcp_cfg) (r : list act * N) : sess * list act :=
+  let (a, st') := r in
+  let (ad, op) := fold_left (on_act fl (s_peer s)) a (s_addr s, s_open s) in
+  (mksess c' st' (s_peer s) ad op (next_req c' a (s_lastreq s)), a).
 
 Definition sess_step (fl : flags) (s : sess) (e : sev) : sess * list act :=
   match e with
   | EvReq id wire =>
       let '(a, st', p') := ipcp_input (s_cfg s) (s_fsm s) (s_peer s) id wire in
       let (ad, op) := fold_left (on_act fl p') a (s_addr s, s_open s) in
-      (mksess (s_cfg s) st' p' ad op, a)
-  | EvAck =>
-      let (a, st') := rca_event (s_fsm s) 0 in
-      let (ad, op) := fold_left (on_act fl (s_peer s)) a (s_addr s, s_open s) in
-      (mksess (s_cfg s) st' (s_peer s) ad op, a)
+      (mksess (s_cfg s) st' p' ad op (next_req (s_cfg s) a (s_lastreq s)), a)
+  | EvAck => sess_fsm_only fl s (ipcp_learn (s_cfg s) (s_lastreq s)) (rca_event (s_fsm s) 0)
+  | EvAckW w => sess_fsm_only fl s (ipcp_learn (s_cfg s) (parse_lenient w)) (rca_event (s_fsm s) 0)
+  | EvNak w => sess_fsm_only fl s (ipcp_learn (s_cfg s) (parse_lenient w)) (rcn_event (s_fsm s) 0)
+  | EvRej w => sess_fsm_only fl s (ipcp_rejected (s_cfg s) (parse_lenient w)) (rcn_event (s_fsm s) 0)
   end.
 
 Fixpoint sess_run (fl : flags) (s : sess) (es : list sev) : sess :=
